@@ -587,6 +587,7 @@ class BaseConnector:
         finally:
             self._conns.clear()
             self._acquired.clear()
+            self._acquired_per_host.clear()
             for keyed_waiters in self._waiters.values():
                 for keyed_waiter in keyed_waiters:
                     keyed_waiter.cancel()
@@ -656,6 +657,10 @@ class BaseConnector:
         self, req: ClientRequest, traces: list["Trace"], timeout: "ClientTimeout"
     ) -> Connection:
         """Get from pool or create new connection."""
+        if self._closed:
+            # (a retry of a request that was in flight when the connector was
+            # closed ends up here: it must not queue, or connect, for ever)
+            raise ClientConnectionError("Connector is closed.")
         key = req.connection_key
         # An idle pooled connection counts against the limits once it is taken
         # back into use, so it may only be taken while there is room.
